@@ -524,6 +524,8 @@ def run_check(modname: str, tier: str, seed: int, replay: Optional[str] = None) 
     if harness_errors:
         evidence["coverage"]["harness_errors"] = harness_errors[:5]
     ev_path = os.path.join(VERIF, "evidence", f"{pid}.json")
+    if os.environ.get("VERIF_NO_EVIDENCE") == "1":      # mutant self-test runs must not overwrite real evidence
+        ev_path = os.path.join(VERIF, "replays", f"{pid}.mutant-evidence.json")
     with open(ev_path, "w") as f:
         json.dump(evidence, f, indent=1, default=str, ensure_ascii=True)
     schema_err = _validate_evidence(evidence)
